@@ -2,7 +2,7 @@
 
 programs x schedules, exhaustive within the stated bounds, no sampling.
 
-Programs: ONE block of <= N ops over a ground-truth alphabet fixed HERE (KIND table below): pure
+Programs: ONE block of exactly n ops, for every n = 1..N, over a ground-truth alphabet fixed HERE (KIND table below): pure
 (test.pureop), read-only (test.op_with_memread), write (test.op_with_memwrite), unknown effects (test.op);
 0..2 operands drawn from all earlier values, 0..1 results.  Two hosts:
   * "mod"  : builtin.module body; a chosen subset of values is marked "returned from a public function" the way
@@ -22,6 +22,10 @@ solver's own FIFO order and address-based set iteration inside on_update cannot 
 identical pending items are presented once (the queue is a multiset).  Executions are enumerated by choice
 prefix with an iterated deviation bound (mc.explore.dfs_choices); every execution builds fresh IR and a fresh
 solver and runs the real DataFlowSolver.initialize_and_run to completion.
+
+The n <= 3 plans use the full alphabet (4 kinds at every position, ordered operand pairs); the 4- and 5-op plans a reduced
+one (see programs()).  A violation also counts whether its (case, mode) already fails under the FIFO schedule or only
+under a deviating one (coverage counters case_modes_wrong_*).
 
 Oracle (independent of xDSL's trait helpers): reference liveness = least fixpoint of "operands of an op that is
 not removable per KIND are live; operands of an op with a live result are live; returned/exit-state values are
@@ -470,7 +474,7 @@ def plans(quick: bool):
             ("mod", 3, True, 0, 3, 2, Q, "all", False),
             ("func", 1, True, 0, 1, None, Q, "all", False), ("func", 2, True, 0, 2, None, Q, "all", False),
             ("func", 3, True, 0, 2, 2, Q, "all", False),
-            ("mod", 4, False, 0, 1, 2, Q, "core", False), ("func", 4, False, 1, 1, 1, Q, "all", False),
+            ("mod", 4, False, 0, 1, 1, Q, "core", False), ("func", 4, False, 1, 1, 1, Q, "all", False),
         ]
     return [
         ("mod", 1, True, 0, 1, None, T, "all", False), ("mod", 2, True, 0, 2, None, T, "all", False),
